@@ -811,6 +811,222 @@ theorem origin_not_implemented (w : World) (self : Nat) (h : self < w.length)
   simp only [hs, Bool.false_eq_true, if_false, isSpecial_eq, originTok_lit, if_true]
   rw [if_neg (fun e => hu e.symm)]
 
+/-! ## bulk conversion while reading: `utils.normalized_table_generator`, `utils.read_bundle_from_csv`
+
+  The generator is a map over the block stream that stops at the first exception: every clause above then holds
+  for every table it yields (`bulk_table_is_result`), nothing else in the stream is touched
+  (`bulk_passthrough`, `bulk_keeps_stream_shape`), and what was yielded before a failure is exactly the
+  results of the blocks before the first failing one (`bulk_spec`). -/
+
+/-- `convertTbl` is `convert_units` on a one-frame heap -/
+theorem convertTbl_ok (hpos : Positional assign) (t t' : Tbl) (to : To) (converter dflt : Option Conv)
+    (h : convertTbl assign t to converter dflt = .ok t') :
+    ∃ conv tgt, choose converter dflt = some conv ∧ Spec.target to t.cols.length = .ok tgt ∧
+      Spec.Result conv tgt t t' := by
+  unfold convertTbl at h
+  split at h
+  · rename_i w r hres
+    obtain ⟨conv, tgt, t'', h1, h2, h3, h4, h5⟩ :=
+      convert_values_and_label hpos [t] 0 (by simp) to converter dflt w r hres
+    rw [h4] at h
+    simp only [Except.ok.injEq] at h
+    subst h
+    exact ⟨conv, tgt, h1, by simpa using h2, by simpa using h5⟩
+  · cases h
+
+/-- a failing bulk conversion of one table is the failing `convert_units` call (so `first_failure_error`,
+    `special_refused`, `missing_converter`, … say which exception it is) -/
+theorem convertTbl_error (t : Tbl) (to : To) (converter dflt : Option Conv) (e : Err) :
+    convertTbl assign t to converter dflt = .error e ↔
+      (convertUnits assign [t] 0 (by simp) to converter dflt).2 = .error e := by
+  unfold convertTbl
+  split
+  · rename_i w r hres
+    rw [hres]
+    split <;> simp
+  · rename_i w e' hres
+    simp [hres]
+
+/-- **only tables are touched**: a block that is not a table, a table block without value, and a table for
+    which the dispatcher has no entry (`None`) are yielded as they came -/
+theorem bulk_passthrough (d : TDisp) (converter : Option (Nat → Conv)) (dflt : Option Conv) (i : Nat) (b : GBlk)
+    (h : b.isTable = false ∨ b.tbl = none ∨ ∃ t, b.tbl = some t ∧ tableTarget d t.name = .ok none) :
+    normStep assign d converter dflt i b = .ok b := by
+  unfold normStep
+  rcases h with h | h | ⟨t, h1, h2⟩
+  · rw [h]
+  · rw [h]; cases b.isTable <;> rfl
+  · rw [h1]
+    cases b.isTable
+    · rfl
+    · simp only [h2]
+
+/-- **a yielded table is `Result`** of the table that came in, for the dispatcher the table's own name selects;
+    flag and the rest of the block are kept -/
+theorem bulk_table_is_result (hpos : Positional assign) (d : TDisp) (converter : Option (Nat → Conv))
+    (dflt : Option Conv) (i : Nat) (b b' : GBlk) (t : Tbl) (to : To)
+    (hb : b.isTable = true) (ht : b.tbl = some t) (hto : tableTarget d t.name = .ok (some to))
+    (h : normStep assign d converter dflt i b = .ok b') :
+    b'.isTable = true ∧ b'.tok = b.tok ∧ ∃ t' conv tgt, b'.tbl = some t' ∧
+      choose (converter.map (fun c => c i)) dflt = some conv ∧
+      Spec.target to t.cols.length = .ok tgt ∧ Spec.Result conv tgt t t' := by
+  unfold normStep at h
+  rw [hb, ht] at h
+  simp only [hto] at h
+  split at h
+  · rename_i t' hc
+    simp only [Except.ok.injEq] at h
+    subst h
+    obtain ⟨conv, tgt, h1, h2, h3⟩ := convertTbl_ok hpos t t' to _ dflt hc
+    exact ⟨rfl, rfl, t', conv, tgt, rfl, h1, h2, h3⟩
+  · cases h
+
+/-- a dispatcher that is neither a dict nor callable is a TypeError at the first table that arrives
+    (and at no other block) -/
+theorem bulk_bad_dispatcher (d : TDisp) (hd : (∃ tr, d = .other tr) ∨ d = .none)
+    (converter : Option (Nat → Conv)) (dflt : Option Conv) (i : Nat) (b : GBlk) (t : Tbl)
+    (hb : b.isTable = true) (ht : b.tbl = some t) :
+    normStep assign d converter dflt i b = .error .typeError := by
+  unfold normStep
+  rw [hb, ht]
+  rcases hd with ⟨tr, rfl⟩ | rfl <;> rfl
+
+/-- what one step keeps of a block, whatever it does: type flag, identity token, whether there is a table and
+    the table's name — so a `TableBundle` built from the stream files the tables under the same names -/
+def blockKey (b : GBlk) : Bool × Str × Option Str := (b.isTable, b.tok, b.tbl.map (·.name))
+
+theorem normStep_key (hpos : Positional assign) (d : TDisp) (converter : Option (Nat → Conv)) (dflt : Option Conv)
+    (i : Nat) (b b' : GBlk) (h : normStep assign d converter dflt i b = .ok b') : blockKey b' = blockKey b := by
+  by_cases hb : b.isTable = true
+  · cases ht : b.tbl with
+    | none =>
+      rw [bulk_passthrough d converter dflt i b (Or.inr (Or.inl ht))] at h
+      cases h; rfl
+    | some t =>
+      cases hto : tableTarget d t.name with
+      | error e => unfold normStep at h; rw [hb, ht] at h; simp only [hto] at h; cases h
+      | ok o =>
+        cases o with
+        | none =>
+          rw [bulk_passthrough d converter dflt i b (Or.inr (Or.inr ⟨t, ht, hto⟩))] at h
+          cases h; rfl
+        | some to =>
+          obtain ⟨h1, h2, t', conv, tgt, h3, -, -, hR⟩ :=
+            bulk_table_is_result hpos d converter dflt i b b' t to hb ht hto h
+          simp only [blockKey, h1, h2, h3, hb, ht, Option.map_some, hR.1]
+  · have hb' : b.isTable = false := by simpa using hb
+    rw [bulk_passthrough d converter dflt i b (Or.inl hb')] at h
+    cases h; rfl
+
+/-- **the generator, block by block**: what it yielded is, position by position, the step result of the
+    incoming block; it ran to the end iff no step failed; if it raised, it raised the exception of the first
+    failing block, having yielded the results of exactly the blocks before it -/
+theorem bulk_spec_from (d : TDisp) (converter : Option (Nat → Conv)) (dflt : Option Conv) :
+    ∀ (bs : List GBlk) (i : Nat) (out : List GBlk) (err : Option Err),
+      normGenFrom assign d converter dflt i bs = (out, err) →
+      (∀ j b', out[j]? = some b' → ∃ b, bs[j]? = some b ∧ normStep assign d converter dflt (i + j) b = .ok b') ∧
+      (err = none → out.length = bs.length) ∧
+      (∀ e, err = some e → ∃ b, bs[out.length]? = some b ∧
+        normStep assign d converter dflt (i + out.length) b = .error e) := by
+  intro bs
+  induction bs with
+  | nil =>
+    intro i out err h
+    simp only [normGenFrom, Prod.mk.injEq] at h
+    obtain ⟨rfl, rfl⟩ := h
+    exact ⟨fun j b' hj => by simp at hj, fun _ => rfl, fun e he => by cases he⟩
+  | cons b bs ih =>
+    intro i out err h
+    unfold normGenFrom at h
+    cases hs : normStep assign d converter dflt i b with
+    | error e =>
+      simp only [hs, Prod.mk.injEq] at h
+      obtain ⟨rfl, rfl⟩ := h
+      refine ⟨fun j b' hj => by simp at hj, fun he => (by cases he), ?_⟩
+      intro e' he'
+      cases he'
+      exact ⟨b, rfl, by simpa using hs⟩
+    | ok b1 =>
+      simp only [hs] at h
+      cases hrec : normGenFrom assign d converter dflt (i + 1) bs with
+      | mk out1 err1 =>
+        simp only [hrec, Prod.mk.injEq] at h
+        obtain ⟨rfl, rfl⟩ := h
+        obtain ⟨h1, h2, h3⟩ := ih (i + 1) out1 err1 hrec
+        refine ⟨?_, ?_, ?_⟩
+        · intro j b' hj
+          cases j with
+          | zero => simp only [List.getElem?_cons_zero, Option.some.injEq] at hj; subst hj; exact ⟨b, rfl, by simpa using hs⟩
+          | succ j =>
+            simp only [List.getElem?_cons_succ] at hj
+            obtain ⟨b0, hb0, hst⟩ := h1 j b' hj
+            refine ⟨b0, by simpa using hb0, ?_⟩
+            have : i + (j + 1) = i + 1 + j := by omega
+            rw [this]; exact hst
+        · intro he; simp [h2 he]
+        · intro e he
+          obtain ⟨b0, hb0, hst⟩ := h3 e he
+          refine ⟨b0, by simpa using hb0, ?_⟩
+          have : i + (out1.length + 1) = i + 1 + out1.length := by omega
+          simp only [List.length_cons, this]; exact hst
+
+theorem bulk_spec (d : TDisp) (converter : Option (Nat → Conv)) (dflt : Option Conv)
+    (bs out : List GBlk) (err : Option Err) (h : normGen assign d converter dflt bs = (out, err)) :
+    (∀ j b', out[j]? = some b' → ∃ b, bs[j]? = some b ∧ normStep assign d converter dflt j b = .ok b') ∧
+    (err = none → out.length = bs.length) ∧
+    (∀ e, err = some e → ∃ b, bs[out.length]? = some b ∧
+      normStep assign d converter dflt out.length b = .error e) := by
+  have := bulk_spec_from (assign := assign) d converter dflt bs 0 out err h
+  simpa using this
+
+/-- **the shape of the stream is kept**: the blocks yielded carry, position by position, the type flag, token
+    and table name of the blocks that came in (all of them when the generator ran to its end) -/
+theorem bulk_keeps_stream_shape (hpos : Positional assign) (d : TDisp) (converter : Option (Nat → Conv))
+    (dflt : Option Conv) (bs out : List GBlk) (err : Option Err)
+    (h : normGen assign d converter dflt bs = (out, err)) :
+    out.map blockKey = (bs.take out.length).map blockKey ∧ (err = none → out.map blockKey = bs.map blockKey) := by
+  obtain ⟨h1, h2, -⟩ := bulk_spec d converter dflt bs out err h
+  have hmain : out.map blockKey = (bs.take out.length).map blockKey := by
+    apply List.ext_getElem?
+    intro j
+    simp only [List.getElem?_map]
+    cases hj : out[j]? with
+    | none =>
+      have hlen : out.length ≤ j := List.getElem?_eq_none_iff.mp hj
+      have : (bs.take out.length)[j]? = none := by
+        apply List.getElem?_eq_none; simp; omega
+      simp [this]
+    | some b' =>
+      obtain ⟨b, hb, hst⟩ := h1 j b' hj
+      have hlt : j < out.length := (List.getElem?_eq_some_iff.mp hj).1
+      have : (bs.take out.length)[j]? = some b := by
+        rw [List.getElem?_take_of_lt hlt]; exact hb
+      simp [this, normStep_key hpos d converter dflt j b b' hst]
+  refine ⟨hmain, fun he => ?_⟩
+  rw [hmain, h2 he, List.take_length]
+
+/-- `read_bundle_from_csv`: a dispatcher without a converter is refused before anything is read or converted -/
+theorem readBundle_needs_converter (d : TDisp) (hd : d.truthy = true) (dflt : Option Conv) (bs : List GBlk) :
+    readBundle assign d none dflt bs = .error .valueError := by
+  simp [readBundle, hd]
+
+/-- `read_bundle_from_csv` without dispatcher: the bundle is built from the blocks as read -/
+theorem readBundle_plain (converter : Option (Nat → Conv)) (dflt : Option Conv) (bs : List GBlk) :
+    readBundle assign .none converter dflt bs = .ok bs := by
+  simp [readBundle, TDisp.truthy]
+
+/-- `read_bundle_from_csv` with dispatcher and converter: the bundle is built from the generator's stream, and
+    any exception of the generator is the caller's -/
+theorem readBundle_converts (d : TDisp) (hd : d.truthy = true) (conv : Nat → Conv) (dflt : Option Conv)
+    (bs out : List GBlk) (err : Option Err) (h : normGen assign d (some conv) dflt bs = (out, err)) :
+    readBundle assign d (some conv) dflt bs = (match err with | none => .ok out | some e => .error e) := by
+  unfold readBundle
+  cases d with
+  | none => simp [TDisp.truthy] at hd
+  | dict m => simp only [hd, Option.isNone_some, Bool.and_false, Bool.false_eq_true, if_false, h]; cases err <;> rfl
+  | fn f => simp only [hd, Option.isNone_some, Bool.and_false, Bool.false_eq_true, if_false, h]; cases err <;> rfl
+  | other t => simp only [hd, Option.isNone_some, Bool.and_false, Bool.false_eq_true, if_false, h]; cases err <;> rfl
+
 /-! ## non-vacuity: a concrete table, converter and calls -/
 
 /-- rows labelled 2, 0, 1 (a permuted index); an int column in mm, a float column in C with a NaN,
@@ -858,6 +1074,41 @@ example : ∃ tgt, Spec.target (.dict [("a".toList, some "m".toList), ("zz".toLi
   · cases hc; exact Or.inl rfl
   · cases hc; exact Or.inl rfl
   · simp [exT] at hc
+
+/-! ### bulk conversion: a stream with a metadata block, two tables and a table block without value -/
+
+def exStream : List GBlk :=
+  [⟨false, none, "meta".toList⟩, ⟨true, some exT, "b1".toList⟩,
+   ⟨true, some { exT with name := "u".toList }, "b2".toList⟩, ⟨true, none, "b3".toList⟩]
+
+/-- table `t` gets `{a: m}`, table `u` has no entry -/
+def exDisp : TDisp := .dict [("t".toList, some (.dict [("a".toList, some "m".toList)]))]
+
+/-- … and here `u` is asked for a unit on its text column -/
+def exDispBad : TDisp :=
+  .dict [("t".toList, some (.dict [("a".toList, some "m".toList)])),
+         ("u".toList, some (.dict [("c".toList, some "m".toList)]))]
+
+example : normGen positionalAssign exDisp (some (fun _ => exConv false)) none exStream =
+    ([⟨false, none, "meta".toList⟩,
+      ⟨true, some { exT with cols := [⟨"a".toList, "m".toList, ["1*".toList, "2*".toList, "3*".toList]⟩,
+                               ⟨"b".toList, "C".toList, ["1.5".toList, "nan".toList, "3.0".toList]⟩,
+                               ⟨"c".toList, "text".toList, ["x".toList, "y".toList, "z".toList]⟩] }, "b1".toList⟩,
+      ⟨true, some { exT with name := "u".toList }, "b2".toList⟩, ⟨true, none, "b3".toList⟩], none) := by rfl
+
+/-- the second table fails: the first two blocks were yielded (the first table converted), then the error -/
+example : (normGen positionalAssign exDispBad (some (fun _ => exConv false)) none exStream).2 =
+      some .unitConversionNotDefined ∧
+    (normGen positionalAssign exDispBad (some (fun _ => exConv false)) none exStream).1.length = 2 := by
+  constructor <;> rfl
+
+example : (normGen positionalAssign (.other true) (some (fun _ => exConv false)) none exStream) =
+    ([⟨false, none, "meta".toList⟩], some .typeError) := by rfl
+
+example : readBundle positionalAssign exDisp none none exStream = .error .valueError ∧
+    readBundle positionalAssign (.dict []) none none exStream = .ok exStream ∧
+    readBundle positionalAssign .none none none exStream = .ok exStream := by
+  refine ⟨rfl, rfl, rfl⟩
 
 /-! ### what the law `Positional` excludes: the label-aligned setter the code had before its fix -/
 
